@@ -167,6 +167,9 @@ func (f *localWrapper) Sync(schema proxyv1alpha1.FlowControlSchema) {
 	newType := flowcontrol.GuessFlowControlSchemaType(schema)
 	if f.FlowControl == nil || f.Type() != newType {
 		f.FlowControl = f.flowControlCache.newMeterFlowControl(schema)
+		// a remote limiter of the old type bounds nothing the new schema configures: drop it, the
+		// local limiter serves until the remote one has been built again for the new type
+		f.flowControlCache.stopRemoteWrapper()
 		klog.Infof("[local limiter] cluster=%q ensure flowcontrol schema %v id=%v", f.flowControlCache.cluster, f.String(), f.flowControlCache.clientID)
 		return
 	}
